@@ -89,7 +89,7 @@ ResetBranch ==
     /\ seen' = {}
     /\ fwdQ' = ToSet(Ev.s.qopts) \cap ClientTokens      \* forwarded by plugins in front of the copy point
     /\ fwdR' = (IF Ev.s.ropt.k = "opt" THEN ToSet(Ev.s.ropt.opts) ELSE {}) \cap UpTokens
-    /\ reply' = [k |-> "pending"] /\ hist' = <<>>
+    /\ reply' = [k |-> "branch"] /\ hist' = <<>>     \* no reply is owed by a copy; it may inherit a response
 
 SnapMatches(s) ==
     /\ R.k = s.r.k
